@@ -248,6 +248,11 @@ enum Kind {
     SendGhost,
     SendForeignNode,
     SendRpc,
+    /// a SEND to a pid that differs from the reply pid of an outstanding call in ONE number (creation, serial or id, one up or
+    /// down): a late reply to an earlier incarnation of the node, to an earlier call — for this node, but for nobody
+    SendRpcNear,
+    /// the numbers of an outstanding call's reply pid under another node's name
+    SendRpcForeign,
     SendNoPayload,
     SendToAtom,
     RegLive,
@@ -284,7 +289,7 @@ enum Kind {
 }
 
 const ALL_KINDS: &[Kind] = &[
-    Kind::SendLive, Kind::SendDead, Kind::SendGhost, Kind::SendForeignNode, Kind::SendRpc, Kind::SendNoPayload,
+    Kind::SendLive, Kind::SendDead, Kind::SendGhost, Kind::SendForeignNode, Kind::SendRpc, Kind::SendRpcNear, Kind::SendRpcForeign, Kind::SendNoPayload,
     Kind::SendToAtom, Kind::RegLive, Kind::RegUnknown, Kind::RegNotAtom, Kind::ExitLive, Kind::ExitDead,
     Kind::ExitFromNotPid, Kind::Exit2Live, Kind::SendTtLive, Kind::RegSendTtLive, Kind::ExitTtLive, Kind::Exit2TtLive, Kind::MonExitLive, Kind::MonExitDead, Kind::MonExitBadRef,
     Kind::OtherKnown, Kind::UnknownTag, Kind::WrongArity, Kind::ControlNotTuple, Kind::ControlBadHead,
@@ -295,7 +300,7 @@ const ALL_KINDS: &[Kind] = &[
 
 /// the kinds that are faults or noise (one of them at every position of a base history)
 const FAULT_KINDS: &[Kind] = &[
-    Kind::SendDead, Kind::SendGhost, Kind::SendNoPayload, Kind::RegUnknown, Kind::ExitDead, Kind::MonExitDead,
+    Kind::SendDead, Kind::SendGhost, Kind::SendRpcNear, Kind::SendNoPayload, Kind::RegUnknown, Kind::ExitDead, Kind::MonExitDead,
     Kind::OtherKnown, Kind::UnknownTag, Kind::WrongArity, Kind::ControlNotTuple, Kind::ControlBadHead,
     Kind::BadUnlinkId, Kind::Undecodable, Kind::BadPayload, Kind::BadMarker, Kind::TrailingAfterPayload, Kind::DistHeaderFrame,
     Kind::Tick, Kind::Overlong,
@@ -353,6 +358,16 @@ fn gen_item(r: &mut Rng, w: &World, k: Kind) -> Item {
             f(tup(vec![int(2), cookie, pidt(&p)]), Some(payload(r)))
         }
         Kind::SendRpc => f(tup(vec![int(2), cookie, pidt(&pick_pid(r, &w.rpc, w))]), Some(payload(r))),
+        Kind::SendRpcNear => {
+            let p = pick_pid(r, &w.rpc, w);
+            let v = r.below(6) as usize;
+            f(tup(vec![int(2), cookie, pidt(&near_miss(&p, v))]), Some(payload(r)))
+        }
+        Kind::SendRpcForeign => {
+            let mut p = pick_pid(r, &w.rpc, w);
+            p.node = Atom::new(*r.pick(&["elsewhere@127.0.0.1", "n19x@127.0.0.1", ""]));
+            f(tup(vec![int(2), cookie, pidt(&p)]), Some(payload(r)))
+        }
         Kind::SendNoPayload => f(tup(vec![int(2), cookie, pidt(&pick_pid(r, &w.live, w))]), None),
         Kind::SendToAtom => f(tup(vec![int(2), cookie, atom("srv")]), Some(payload(r))),
         Kind::RegLive => {
@@ -552,6 +567,20 @@ fn gen_item(r: &mut Rng, w: &World, k: Kind) -> Item {
         }
         Kind::Close => Item::Close,
     }
+}
+
+/// the six pids next to `p`: creation, serial, id one down / one up (wrapping at 32 bits)
+fn near_miss(p: &ExternalPid, variant: usize) -> ExternalPid {
+    let mut q = ExternalPid::new(p.node.clone(), p.id, p.serial, p.creation);
+    match variant % 6 {
+        0 => q.creation = p.creation.wrapping_sub(1),
+        1 => q.creation = p.creation.wrapping_add(1),
+        2 => q.serial = p.serial.wrapping_sub(1),
+        3 => q.serial = p.serial.wrapping_add(1),
+        4 => q.id = p.id.wrapping_sub(1),
+        _ => q.id = p.id.wrapping_add(1),
+    }
+    q
 }
 
 fn probe_item(w: &World, i: usize) -> Item {
@@ -1360,6 +1389,46 @@ pub fn run(ctx: &mut Ctx) {
                 })
                 .await;
             }
+        }
+        // 2a. near misses of an outstanding call's reply pid BEFORE the real reply: every call must still get its own reply,
+        //     the near misses reach nobody (unless the neighbouring pid is itself a live process or another call)
+        let near_rounds = ctx.n(8, 60);
+        for round in 0..near_rounds {
+            let nrpc = 1 + round % 2;
+            let spec = WorldSpec { nlive: 1 + (round / 2) % 2, names: vec![], ndead: round % 2, nrpc, local_traffic: round % 4 == 3 };
+            scenario(ctx, &epmd, &mut case, "near", spec, |r, w| {
+                let cookie = atom("");
+                let mut h = vec![];
+                let mut order: Vec<usize> = (0..w.rpc.len()).collect();
+                r.shuffle(&mut order);
+                for &j in &order {
+                    let p = w.rpc[j].clone();
+                    let mut vs: Vec<usize> = (0..6).collect();
+                    r.shuffle(&mut vs);
+                    let keep = r.range(3, 6) as usize;
+                    for &v in vs.iter().take(keep) {
+                        let q = near_miss(&p, v);
+                        // a neighbour that is itself a process or another call of this node is not a miss
+                        if w.live.iter().chain(w.rpc.iter()).any(|x| x.id == q.id && x.serial == q.serial && x.creation == q.creation) {
+                            continue;
+                        }
+                        h.push(Item::Frame(pass_through(&tup(vec![int(2), cookie.clone(), pidt(&near_miss(&p, v))]), Some(&tup(vec![atom("near"), int(v as i64), payload(r)])))));
+                        if r.chance(1, 5) {
+                            h.push(Item::Tick);
+                        }
+                    }
+                    h.push(Item::Frame(pass_through(&tup(vec![int(2), cookie.clone(), pidt(&p)]), Some(&tup(vec![atom("rex"), payload(r)])))));
+                    // and one behind the real reply
+                    h.push(gen_item(r, w, Kind::SendRpcNear));
+                }
+                h
+            })
+            .await;
+        }
+        // the same numbers under another node's name, before the real reply (tie only: the oracle calls such a frame unclear)
+        for nrpc in 1..=2usize {
+            let spec = WorldSpec { nlive: 1, names: vec![], ndead: 0, nrpc, local_traffic: false };
+            scenario(ctx, &epmd, &mut case, "near-foreign", spec, |r, w| vec![gen_item(r, w, Kind::SendRpcForeign), gen_item(r, w, Kind::SendRpc), gen_item(r, w, Kind::SendRpc)]).await;
         }
         // 2b. full mailboxes
         full_scenarios(ctx, &epmd, &mut case).await;
